@@ -2,7 +2,7 @@
     Only statements, each closed by [exact <lemma>] (or a short wrapper), with [Print Assumptions]. *)
 From Coq Require Import List ZArith NArith Bool Lia.
 From DH Require Import Lib.CheckLib Model.Store Proofs.StoreProofs Model.DsManager Model.Gc Proofs.DsManagerProofs Proofs.GcProofs
-     Proofs.DsRefine Proofs.DsCrash Check.C07Check Proofs.C07CheckProofs.
+     Proofs.DsRefine Proofs.DsCrash Model.NameCodec Proofs.NameCodecProofs Check.C07Check Proofs.C07CheckProofs.
 Import ListNotations.
 Open Scope Z_scope.
 
@@ -302,3 +302,27 @@ Example C07_ex_crash_exact_hyps :
   /\ fst (plan v_current (MDelete 2) h_w) <> [] /\ fst (plan v_current (MCreate 3) h_w) <> []
   /\ fst (plan v_current (MRename 2 3) h_w) <> [].
 Proof. exact crash_exact_nonvacuous. Qed.
+
+(** The dataset a request on /datasets/<segment> addresses (create, rename, delete over HTTP): the name is the segment
+    percent-decoded ONCE.  For every byte string used as a dataset name, the canonical escaped segment decodes back to
+    exactly that name ... *)
+Theorem C07_name_codec_roundtrip : forall s, Forall (fun c => 0 <= c < 256) s -> pct_decode (escape s) = Some s.
+Proof. exact decode_escape. Qed.
+Print Assumptions C07_name_codec_roundtrip.
+(** ... a segment without '%' is its own name (a '+' in a path is a plus, not a space) ... *)
+Theorem C07_name_codec_plain : forall s, ~ In 37 s -> pct_decode s = Some s.
+Proof. exact decode_no_percent. Qed.
+Print Assumptions C07_name_codec_plain.
+(** ... and a second decoding step (url.QueryUnescape on the already decoded parameter) addresses a DIFFERENT dataset:
+    "s+e" becomes "s e", the escaped form of the literal name "s%2Be" becomes "s+e". *)
+Theorem C07_name_codec_twice_differs :
+  pct_decode [115; 43; 101] = Some [115; 43; 101] /\ decode_twice [115; 43; 101] = Some [115; 32; 101]
+  /\ pct_decode (escape [115; 37; 50; 66; 101]) = Some [115; 37; 50; 66; 101]
+  /\ decode_twice (escape [115; 37; 50; 66; 101]) = Some [115; 43; 101].
+Proof. exact decode_twice_differs. Qed.
+Print Assumptions C07_name_codec_twice_differs.
+(** the model's handler addresses the sibling datasets correctly (non-vacuity of the name table) *)
+Example C07_ex_http_names :
+  http_name [115; 43; 101] = 5 /\ http_name [115; 37; 50; 48; 101] = 6 /\ http_name [115; 37; 50; 53; 50; 66; 101] = 7
+  /\ http_name [97] = 1 /\ http_name [122; 122] = 9.
+Proof. vm_compute. auto. Qed.
